@@ -117,6 +117,16 @@ def check_self_exclusion(run, A):
         if len(idx) != 2 or not is_call_to(val, 'numpy.sum'):
             continue
         kL, dL = idx
+        inner0 = strip_views(call_arg(val, 0))
+        if is_call_to(inner0, 'numpy.delete'):
+            # the same sum written as "column d with row k deleted"
+            base, items = index_chain(call_arg(inner0, 0))
+            if _power_of(base, 'images') and len(items) == 2:
+                cands += 1
+                ir = loop_role(call_arg(inner0, 1))
+                ok = ok or (is_full_slice(items[0]) and items[1] == ('index', dL) and ir is not None and ir[0] == 'index' and ir[1] is kL
+                            and const_val(call_arg(inner0, None, 'axis')) in (0,) and _extent_is_dim(kL, 'images', 0) and const_val(call_arg(val, None, 'axis')) in (0, NOVAL))
+            continue
         base, items = index_chain(call_arg(val, 0))
         if not _power_of(base, 'images') or len(items) != 2:
             continue
@@ -208,11 +218,16 @@ def check_selection(run, A):
         if not _power_of(base, 'image_contribution') or len(items) != 2:
             continue
         k, pick = items
-        okk = isinstance(k, tuple) and k[0] == 'index' and getattr(k[1], 'iter', None) is iters[0] and _range_over(iters[0], lambda x: _dim_of(x, 'image_contribution', 0))
         if not isinstance(pick, T):
             continue
         pb, pit = index_chain(pick)
         okp = len(pit) == 2 and pit[0] == ('index', Lp) and pit[1] == k
+        # k runs over all sources: range(K_source), or the positions of the candidate row itself (its length is K_source by construction)
+        okk = isinstance(k, tuple) and k[0] == 'index' and getattr(k[1], 'iter', None) is iters[0]
+        if okk:
+            ext = index_extent(k[1])
+            okk = (isinstance(ext, T) and _dim_of(ext, 'image_contribution', 0)) or \
+                (isinstance(ext, tuple) and ext[0] == 'len' and isinstance(ext[1], T) and index_chain(ext[1]) == (pb, [('index', Lp)]))
         if okk and okp:
             sel_arr = pb
             src_ok = perms and any(x is perms[0] for x in walk_terms(sel_arr))
@@ -261,17 +276,28 @@ def check_return_dict(run, A):
         for d in dicts:
             ks = d.args[0]
             if all(isinstance(const_val(k), str) for k in ks):
-                plain = sorted(const_val(k) for k in ks) == ['sdr', 'sir', 'snr']
+                plain = plain or sorted(const_val(k) for k in ks) == ['sdr', 'sir', 'snr']
             else:
+                # keys of the form <prefix> + 'sdr': the prefix is the string argument, and / or the empty string for return_dict=True
                 okp = True
-                suff = []
+                suff, kinds = [], set()
                 for k in ks:
                     k = strip_views(k)
-                    if k.op == 'binop' and k.args[0] == 'Add' and strip_views(k.args[1]).op in ('param', 'refine') and isinstance(const_val(k.args[2]), str):
+                    if k.op == 'binop' and k.args[0] == 'Add' and isinstance(const_val(k.args[2]), str):
                         suff.append(const_val(k.args[2]))
+                        for alt in unwrap_gamma(k.args[1]):
+                            alt = strip_views(alt)
+                            if alt.op == 'param':
+                                kinds.add('param')
+                            elif const_val(alt) == '':
+                                kinds.add('empty')
+                            elif alt.op != 'raise':
+                                kinds.add('?')
                     else:
                         okp = False
-                prefixed = okp and sorted(suff) == ['sdr', 'sir', 'snr']
+                good = okp and sorted(suff) == ['sdr', 'sir', 'snr'] and '?' not in kinds
+                prefixed = prefixed or (good and 'param' in kinds)
+                plain = plain or (good and 'empty' in kinds)
         run.check(plain and prefixed, 'R-SIB', f'{name}: dict keys sdr/sir/snr, optionally prefixed', fn.loc(), '', f'plain keys ok: {plain}; prefixed keys ok: {prefixed}', construct=f'R-SIB::{q}::keys')
 
 
